@@ -22,7 +22,12 @@ RULE = ('every function of SCRIPT_FUNCTIONS except clock/random/fetch is called 
         'tuple and in-place respelling); (script) each base tuple printed as BareScript source (literals are floats) and '
         'run by parse_script+execute_script against the direct call with ints; (ops) 14 binary and 2 unary operators over '
         'all ordered pairs of a 22-value pool in the four int/float spellings; (forindex) for-loops whose parser-seeded '
-        'int index is used as index/count/size/radix/digits, against the same loop written with a float index. Compared: '
+        'int index is used as index/count/size/radix/digits, against the same loop written with a float index; (print) nine '
+        'printers (jsonStringify plain/indented, stringNew, string + value, value + string, arrayJoin of and over the value, '
+        'systemLog, systemLogDebug) and dataTop/dataAggregate grouping x six container shapes holding one integral number next '
+        'to two strings x every pair of strings of length <= 2 over {backslash, double quote, . 0 , ] a} (13 characters in '
+        'thorough) x {1, 3, -2, 999999999999999}, int vs float; (parse) jsonParse of the same shapes written as JSON text by '
+        'an independent writer with the number as n and as n.0, compact and spaced, against the denoted value. Compared: '
         'canonical result (1 == 1.0), failed/succeeded + failure value, logFn lines of the log functions, canonical '
         'post-call state of every argument. A case is non-trivial when it contains at least one respellable integral '
         'number and the int-spelled call succeeded (passed validation, body ran).')
@@ -773,6 +778,205 @@ def fam_forindex(arg):
 
 
 # ----------------------------------------------------------------------------------------------------------------
+# Printing / serialising an integral number that sits next to adversarial strings; and parsing it back
+# ----------------------------------------------------------------------------------------------------------------
+
+PRINT_ALPHABET = ['\\', '"', '.', '0', ',', ']', 'a']
+PRINT_ALPHABET_THOROUGH = PRINT_ALPHABET + ['e', '-', '}', ':', '5', ' ']
+PRINT_NUMBERS = [1, 3, -2, 999999999999999]
+PRINT_SHAPES = ['[s1,n,s2]', '{s1:n,zz:s2}', '{a:s1,b:n,c:s2}', '[[s1,n],s2]', '[n,s1,s2]', '[s1,s2,n]']
+
+
+def print_strings(tier):
+    """'' and every string of length 1 and 2 over the alphabet (deterministic order)."""
+    key = ('pstr', tier)
+    if key not in _CACHE:
+        al = PRINT_ALPHABET_THOROUGH if tier == 'thorough' else PRINT_ALPHABET
+        _CACHE[key] = [''] + list(al) + [a + b for a in al for b in al]
+    return _CACHE[key]
+
+
+def print_value(shape, s1, num, s2):
+    if shape == 0:
+        return [s1, num, s2]
+    if shape == 1:
+        return {s1: num, 'zz': s2}
+    if shape == 2:
+        return {'a': s1, 'b': num, 'c': s2}
+    if shape == 3:
+        return [[s1, num], s2]
+    if shape == 4:
+        return [num, s1, s2]
+    return [s1, s2, num]
+
+
+def _fn_expr(name, nargs):
+    return {'function': {'name': name, 'args': [{'variable': f'v{i}'} for i in range(nargs)]}}
+
+
+# (id, expression model over the globals v0 (the value) [, v1 ...], extra globals)
+PRINTERS = [
+    ('jsonStringify(v)', _fn_expr('jsonStringify', 1), {}),
+    ('jsonStringify(v, 2)', _fn_expr('jsonStringify', 2), {'v1': 2}),
+    ('stringNew(v)', _fn_expr('stringNew', 1), {}),
+    ("'x' + v", {'binary': {'op': '+', 'left': {'string': 'x'}, 'right': {'variable': 'v0'}}}, {}),
+    ("v + ''", {'binary': {'op': '+', 'left': {'variable': 'v0'}, 'right': {'string': ''}}}, {}),
+    ("arrayJoin(arrayNew(v, v), '|')", {'function': {'name': 'arrayJoin', 'args': [
+        {'function': {'name': 'arrayNew', 'args': [{'variable': 'v0'}, {'variable': 'v0'}]}}, {'string': '|'}]}}, {}),
+    ("arrayJoin(v, ',')", {'function': {'name': 'arrayJoin', 'args': [{'variable': 'v0'}, {'string': ','}]}}, {}),
+    ('systemLog(v)', _fn_expr('systemLog', 1), {}),
+    ('systemLogDebug(v)', _fn_expr('systemLogDebug', 1), {}),
+]
+PRINT_LIB = ('jsonStringify', 'stringNew', 'arrayJoin', 'arrayNew', 'systemLog', 'systemLogDebug', 'dataTop', 'dataAggregate', 'jsonParse')
+
+
+def print_eval(expr, glob):
+    """-> (how, result (must be a string/null to be compared exactly), failure lines, other log lines)"""
+    bs, funcs = impl()
+    logs = []
+    g = dict(glob)
+    for n in PRINT_LIB:
+        g[n] = funcs[n]
+    try:
+        res = bs.evaluate_expression(expr, {'globals': g, 'logFn': logs.append, 'debug': True, 'statementCount': 0}, None, False)
+        how = 'value'
+    except Exception as exc:  # pylint: disable=broad-exception-caught
+        res = None
+        how = 'raise ' + type(exc).__name__
+    fails, other = split_logs(logs)
+    return (how, res if res is None or isinstance(res, str) else zero_norm(canon(res)), fails, other)
+
+
+GROUP_TOP = {'function': {'name': 'dataTop', 'args': [{'variable': 'v0'}, {'number': 1}, {'variable': 'v1'}]}}
+GROUP_AGG = _fn_expr('dataAggregate', 2)
+
+
+def check_print(case, acc):
+    """All printers and the two grouping functions for ONE value in its int and its float spelling."""
+    strings = print_strings(case['tier'])
+    shape, s1, s2, num = case['shape'], strings[case['s1']], strings[case['s2']], PRINT_NUMBERS[case['n']]
+    case = dict(case, value=show(print_value(shape, s1, num, s2)))
+    bad = 0
+    for pid, expr, extra in PRINTERS:
+        o_int = print_eval(expr, dict(extra, v0=print_value(shape, s1, int(num), s2)))
+        o_flt = print_eval(expr, dict(extra, v0=print_value(shape, s1, float(num), s2)))
+        acc.evals += 2
+        if o_int != o_flt:
+            bad += 1
+            what = ('the printed text' if o_int[0] == o_flt[0] and o_int[2] == o_flt[2] and o_int[3] == o_flt[3]
+                    else 'the logged text' if o_int[:3] == o_flt[:3] else 'success/failure')
+            acc.violation(dict(case, printer=pid), {'how': o_int[0], 'result': show(o_int[1]), 'failed': o_int[2], 'logs': list(o_int[3])},
+                          {'how': o_flt[0], 'result': show(o_flt[1]), 'failed': o_flt[2], 'logs': list(o_flt[3])},
+                          f'{pid}: {what} differs between the number as int and as float (value {show(print_value(shape, s1, num, s2))!r})')
+    # grouping by serialised category values: two rows that differ only in the spelling of n are ONE category
+    if shape == 2:
+        cats = ['a', 'b', 'c']
+        ref = None
+        for m in range(4):
+            rows = [{'a': s1, 'b': float(num) if m & 1 else int(num), 'c': s2, 'w': 1}, {'a': s1, 'b': float(num) if m & 2 else int(num), 'c': s2, 'w': 1}]
+            o_top = print_eval(GROUP_TOP, {'v0': rows, 'v1': list(cats)})
+            o_agg = print_eval(GROUP_AGG, {'v0': rows, 'v1': {'categories': list(cats), 'measures': [{'field': 'w', 'function': 'count'}]}})
+            acc.evals += 2
+            if ref is None:
+                ref = (o_top, o_agg)
+            elif (o_top, o_agg) != ref:
+                bad += 1
+                acc.violation(dict(case, printer='dataTop/dataAggregate grouping', row_spellings=m), show(ref), show((o_top, o_agg)),
+                              'rows that differ only in the int/float spelling of a category value are grouped differently')
+    return bad
+
+
+def print_nontrivial(s1, s2):
+    return any(ch in s1 + s2 for ch in ('\\', '"')) or '.0' in s1 + s2 or (s1 + s2).endswith('.') or (s1 + s2).startswith('0')
+
+
+def fam_print(arg):
+    tier, firsts = arg
+    acc = Acc('print')
+    strings = print_strings(tier)
+    for shape, i in firsts:
+        for j in range(len(strings)):
+            for k in range(len(PRINT_NUMBERS)):
+                acc.cases += 1
+                bad = check_print({'tier': tier, 'shape': shape, 's1': i, 's2': j, 'n': k}, acc)
+                if print_nontrivial(strings[i], strings[j]):
+                    acc.nontrivial += 1
+                acc.outcome((shape, len(strings[i]), len(strings[j]), k, bad))
+        if i == 9:
+            val = print_value(shape, strings[i], 3.0, strings[12])
+            acc.sample({'value_with_float': show(val), 'jsonStringify': print_eval(PRINTERS[0][1], {'v0': val})[1],
+                        'stringNew': print_eval(PRINTERS[2][1], {'v0': print_value(shape, strings[i], 3, strings[12])})[1]})
+    return acc.result()
+
+
+def json_quote(text):
+    """Independent JSON string writer for the parse direction (only the alphabet's characters need care)."""
+    out = '"'
+    for ch in text:
+        if ch in ('\\', '"'):
+            out += '\\' + ch
+        elif ch < ' ':
+            out += f'\\u{ord(ch):04x}'
+        else:
+            out += ch
+    return out + '"'
+
+
+def parse_text(shape, s1, numtext, s2, spaced):
+    sep, col = (', ', ': ') if spaced else (',', ':')
+    if shape == 0:
+        return '[' + json_quote(s1) + sep + numtext + sep + json_quote(s2) + ']'
+    if shape == 1:
+        return '{' + json_quote(s1) + col + numtext + sep + '"zz"' + col + json_quote(s2) + '}'
+    if shape == 2:
+        return '{"a"' + col + json_quote(s1) + sep + '"b"' + col + numtext + sep + '"c"' + col + json_quote(s2) + '}'
+    if shape == 3:
+        return '[[' + json_quote(s1) + sep + numtext + ']' + sep + json_quote(s2) + ']'
+    if shape == 4:
+        return '[' + numtext + sep + json_quote(s1) + sep + json_quote(s2) + ']'
+    return '[' + json_quote(s1) + sep + json_quote(s2) + sep + numtext + ']'
+
+
+PARSE_EXPR = _fn_expr('jsonParse', 1)
+
+
+def check_parse(case, acc):
+    """jsonParse of the text with the number written n and written n.0 (compact and spaced layout): equal values, and
+    equal to the value the text denotes."""
+    strings = print_strings(case['tier'])
+    shape, s1, s2, num = case['shape'], strings[case['s1']], strings[case['s2']], PRINT_NUMBERS[case['n']]
+    want = ('value', zero_norm(canon(print_value(shape, s1, num, s2))), 0, ())
+    bad = 0
+    for spaced in (False, True):
+        for numtext in (str(num), str(num) + '.0'):
+            text = parse_text(shape, s1, numtext, s2, spaced)
+            got = print_eval(PARSE_EXPR, {'v0': text})
+            acc.evals += 1
+            if got != want:
+                bad += 1
+                acc.violation(dict(case, text=text), {'how': want[0], 'value': show(want[1])}, {'how': got[0], 'value': show(got[1]), 'failed': got[2]},
+                              f'jsonParse({text!r}) is not the value the text denotes (number written as {numtext})')
+    return bad
+
+
+def fam_parse(arg):
+    tier, firsts = arg
+    acc = Acc('parse')
+    strings = print_strings(tier)
+    for shape, i in firsts:
+        for j in range(len(strings)):
+            for k in range(len(PRINT_NUMBERS)):
+                acc.cases += 1
+                bad = check_parse({'tier': tier, 'shape': shape, 's1': i, 's2': j, 'n': k}, acc)
+                if print_nontrivial(strings[i], strings[j]):
+                    acc.nontrivial += 1
+                acc.outcome((shape, len(strings[i]), len(strings[j]), k, bad))
+        if i == 2:
+            acc.sample({'text': parse_text(shape, strings[i], '3.0', strings[10], False)})
+    return acc.result()
+
+
+# ----------------------------------------------------------------------------------------------------------------
 
 def families(tier):
     names = functions()
@@ -782,6 +986,9 @@ def families(tier):
     nop = len(op_pool())
     op_shards = [(op, i) for op in BIN_OPS for i in range(nop)] + [(op, None) for op in UN_OPS]
     arrs = for_arrays(tier)
+    nstr = len(print_strings(tier))
+    pfirsts = [(sh, i) for sh in range(len(PRINT_SHAPES)) for i in range(nstr)]
+    nprint = len(PRINT_SHAPES) * nstr * nstr * len(PRINT_NUMBERS)
     return [
         Family('shallow', fam_shallow, [(tier, [n]) for n in names],
                f'{len(names)} functions x every argument tuple of arity 0..3 over a {n16}-value all-types pool'
@@ -795,10 +1002,16 @@ def families(tier):
                f'{nop}-value pool, four (two) int/float spellings each', expected=len(BIN_OPS) * nop * nop + len(UN_OPS) * nop),
         Family('forindex', fam_forindex, [(tier, u) for u in split(list(range(len(USES))), 16)],
                f'{len(USES)} uses of the for-loop index x {len(arrs)} iterated arrays', expected=len(USES) * len(arrs)),
+        Family('print', fam_print, [(tier, f) for f in split(pfirsts, 64)],
+               f'{len(PRINTERS)} printers (+ dataTop/dataAggregate grouping) x {len(PRINT_SHAPES)} container shapes x {nstr}^2 strings (length <= 2 over '
+               f'{len(PRINT_ALPHABET_THOROUGH if tier == "thorough" else PRINT_ALPHABET)} characters) x {len(PRINT_NUMBERS)} numbers, int vs float', expected=nprint),
+        Family('parse', fam_parse, [(tier, f) for f in split(pfirsts, 32)],
+               f'jsonParse of {len(PRINT_SHAPES)} shapes x {nstr}^2 strings x {len(PRINT_NUMBERS)} numbers, number written n and n.0, compact and spaced', expected=nprint),
     ]
 
 
-_CHECKS = {'shallow': check_shallow, 'deep': check_deep, 'script': check_script, 'ops': check_ops, 'forindex': check_forindex}
+_CHECKS = {'shallow': check_shallow, 'deep': check_deep, 'script': check_script, 'ops': check_ops, 'forindex': check_forindex,
+           'print': check_print, 'parse': check_parse}
 
 
 def replay(family, case):
